@@ -365,11 +365,13 @@ def hub_world(rng, min_sectors=17, max_sectors=20, low_degree=16, conn=None):
         # graph plus the root is an apex graph: some node has degree <= 6), 8 on queen rasters
         low_degree = 6 if conn == "rook" else 8
         min_sectors, max_sectors = low_degree + 1, low_degree + 3
+    if low_degree >= 16:
+        max_sectors = min(max_sectors, 18)      # <= 1440 nodes: what a whole-world TLC validation affords
     K = rng.randint(min_sectors, max_sectors)
     wmin = max(2, low_degree - (2 if conn == "rook" else 4))   # sector degree = w + 3 (rook) / w + 5 (queen) > bound
     w = rng.randint(wmin, wmin + 2)
     nc = K * w
-    extra_lake = rng.random() < 0.3          # a second lake below the first one: three hubs
+    extra_lake = rng.random() < 0.3 and low_degree < 16         # a second lake below the first one: three hubs
     nr = 7 if extra_lake else 5
     tied = rng.random() < 0.4
     flip = rng.random() < 0.5                # base levels on the bottom row instead of the top row
